@@ -97,6 +97,8 @@ class FlowEmit:
             if lt == "N" and op in ("%", "<<", ">>", "&", "|", "^"):
                 lop = {"%": "%", "<<": "<<<", ">>": ">>>", "&": "&&&", "|": "|||", "^": "^^^"}[op]
                 return "(%s %s %s)" % (l, lop, r), "N"
+            if lt == "L(B)" and op in ("&", "|"):   # FixedBitSet BitOr / BitAnd (equal lengths: guarded by the caller's assertion)
+                return "(List.zipWith (fun a_ b_ => a_ %s b_) %s %s)" % ("||" if op == "|" else "&&", l, r), "L(B)"
             if lt == "B" and op in ("&", "|"):      # non-short-circuit: both operands are pure here
                 return "(%s %s %s)" % (l, "&&" if op == "&" else "||", r), "B"
             die("unsupported operator %s on %s" % (op, lt))
